@@ -126,8 +126,11 @@ async def scenario(env, cfg):
             cancelled = True
         else:
             gates[k].set_result(None)
-        if env.choose("yield%d" % step, 2):
+        y = env.choose("yield%d" % step, 3 if cfg.get("fine") else 2)
+        if y == 1:
             await settle()
+        elif y == 2:
+            await asyncio.sleep(0)  # exactly one loop iteration: the next decision lands between two callbacks of the same burst
         step += 1
     await settle(10)
     # drain: everything that is still gated is released, the channel gets closed, receivers keep receiving until done
@@ -218,6 +221,11 @@ def units(tier):
     add("1 sender x2 | free receiver + free iterator", senders=[(2, "send")], receivers=["receive-free", "iter-free"], steps=6)
     add("2 senders x1 | 2 free-running receivers, cancel r0", senders=[(1, "send"), (1, "send")], receivers=["receive-free", "receive-free"], steps=6, cancel="r0")
     add("send_from x2 | 2 free-running receivers", senders=[(2, "send_from")], receivers=["receive-free", "receive-free"], steps=5)
+    # fine-grained driver: may also yield exactly one loop iteration between two decisions
+    add("1 sender x1 | 2 receivers, fine-grained", senders=[(1, "send")], receivers=["receive", "receive"], steps=5, fine=True)
+    add("1 sender x1 | free receiver + receiver, fine-grained", senders=[(1, "send")], receivers=["receive-free", "receive"], steps=5, fine=True)
+    add("no sender | 2 receivers, fine-grained", senders=[], receivers=["receive", "receive"], steps=4, fine=True)
+    add("no sender | iterator + receiver, fine-grained", senders=[], receivers=["iter", "receive"], steps=4, fine=True)
     if tier == "thorough":
         add("1 sender x3 | 2 free-running receivers", senders=[(3, "send")], receivers=["receive-free", "receive-free"], steps=8)
         add("1 sender x3 | 2 receivers", senders=[(3, "send")], receivers=["receive", "receive"], steps=8)
@@ -232,8 +240,8 @@ BUDGET = {"quick": 200, "thorough": 1200}
 UNIT_PATH_CAP = {"quick": 6000, "thorough": 200000}
 BOUNDS = {
     "quick": "configurations: 1-2 senders x 1-2 items (send or send_from), 1-2 receivers (receive() loop or async-for, gated before every receive or free-running after the first gate), one closer, optionally cancellation of one "
-    "receiver at any point; buffer limit symbolic in 0..3 (0 = unbounded); 4-6 driver decisions (which gated actor proceeds next / cancel, and whether the loop runs "
-    "before the next decision), then a drain phase that releases every remaining gate; every schedule of the decision tree, 6000 paths per unit",
+    "receiver at any point; buffer limit symbolic in 0..3 (0 = unbounded); 4-6 driver decisions (which gated actor proceeds next / cancel, and whether the loop runs before the next decision: "
+    "not at all / until quiescent / in the fine-grained units exactly one iteration), then a drain phase that releases every remaining gate; every schedule of the decision tree, 6000 paths per unit",
     "thorough": "up to 3 items / 3 receivers, 8 driver decisions, 200000 paths per unit",
 }
 OUTSIDE = ("asyncio.wait_for time-outs (modelled by cancellation, which is what wait_for does), real network back-pressure, larger configurations; "
